@@ -194,6 +194,8 @@ type Sim struct {
 	starveOn  bool
 
 	nReal    int
+	drops      map[unsafe.Pointer]int
+	totalDrops int
 	holdTime bool
 	invariant func() (string, string)
 	stepHooks []stepHook
@@ -251,6 +253,7 @@ func Run(cfg Config, root func()) *Result {
 		counters: map[string]int{},
 		caseHits: map[CaseKey]int{},
 		ptrIDs:   map[unsafe.Pointer]int{},
+		drops:    map[unsafe.Pointer]int{},
 	}
 	if cfg.Strategy.Kind == "pct" && !cfg.Replay {
 		s.pctChange = map[int]bool{}
@@ -504,6 +507,15 @@ func (s *Sim) loop(root *G) {
 			k = en[s.choose("case", len(en), 0)]
 		}
 		if k == len(g.cases) { // default
+			// a non-blocking send that finds its buffer full drops the value:
+			// remember which buffers overflowed (a semantic signal, independent
+			// of log texts and line numbers)
+			for _, c := range g.cases {
+				if c.send && c.ch != nil && c.capv > 0 && c.lenf() >= c.capv {
+					s.drops[c.ch]++
+					s.totalDrops++
+				}
+			}
 			s.record(g, g.opSite, k)
 			s.release(g, k, false)
 			pendingParks = 1
@@ -1213,3 +1225,20 @@ func HoldTime(on bool) {
 // Spin yields the processor while a select-with-default waits for its
 // rendezvous partner to reach the real channel operation (see kcinstr).
 func Spin() { runtime.Gosched() }
+
+// TotalDrops is the number of values dropped so far by non-blocking sends
+// (select with default) on full buffered channels, anywhere in the run.
+func TotalDrops() int {
+	if s := cur; s != nil {
+		return s.totalDrops
+	}
+	return 0
+}
+
+// DropsOn is the number of values dropped because this channel's buffer was full.
+func DropsOn[C ~chan T | ~<-chan T, T any](c C) int {
+	if s := cur; s != nil && c != nil {
+		return s.drops[chanPtr(c)]
+	}
+	return 0
+}
